@@ -153,3 +153,137 @@ def md047(lines):
     if len(lines[-1]) > 0:
         return [len(lines)]
     return []
+
+
+# ---------------------------------------------------------------- heading-structure rules
+def headings(md_tokens):
+    """[(level, first 0-based line, is_atx)] of every heading the reference parser sees"""
+    out = []
+    for t in md_tokens:
+        if t.type == "heading_open" and t.map:
+            out.append((int(t.tag[1]), t.map[0], t.markup[:1] == "#"))
+    return out
+
+
+def first_block(md_tokens):
+    """(type, tag, first line) of the first block of the document, or None"""
+    for t in md_tokens:
+        if t.map and t.type != "inline":
+            return (t.type, t.tag, t.map[0])
+    return None
+
+
+def md001(md_tokens):
+    """rule_md001.md: a heading whose level exceeds the previous heading's level by more than 1"""
+    out = []
+    prev = None
+    for level, line, _atx in headings(md_tokens):
+        if prev is not None and level > prev + 1:
+            out.append(line + 1)
+        prev = level
+    return out
+
+
+def _after_hashes(line):
+    """(number of leading spaces, number of hashes, rest) for a line that starts like an ATX
+    heading (<= 3 spaces then 1..6 '#'), else None"""
+    i = 0
+    while i < len(line) and i < 4 and line[i] == " ":
+        i += 1
+    if i > 3:
+        return None
+    j = i
+    while j < len(line) and line[j] == "#":
+        j += 1
+    n = j - i
+    if not (1 <= n <= 6):
+        return None
+    return i, n, line[j:]
+
+
+def md019(lines, md_tokens):
+    """rule_md019.md: ATX heading with more than one space between the hashes and the first
+    non-space character of its text"""
+    out = []
+    for level, line, atx in headings(md_tokens):
+        if not atx:
+            continue
+        p = _after_hashes(lines[line])
+        if p is None:
+            continue
+        rest = p[2]
+        if "\t" in rest:
+            return None  # TAB after the hashes: outside this oracle
+        k = 0
+        while k < len(rest) and rest[k] == " ":
+            k += 1
+        if k >= 2 and k == len(rest):
+            return None  # heading without text followed by spaces: the documentation does not say
+        if k >= 2:
+            out.append(line + 1)
+    return out
+
+
+def md023(lines, md_tokens):
+    """rule_md023.md: whitespace before the heading (ATX headings; documents without containers)"""
+    out = []
+    for level, line, atx in headings(md_tokens):
+        if atx and len(lines[line]) > 0 and lines[line][0] == " ":
+            out.append(line + 1)
+    return out
+
+
+def md018(lines, md_tokens):
+    """rule_md018.md: in a paragraph, a line that after <= 3 leading spaces has 1-6 '#'
+    followed by at least one non-space character (top-level paragraphs)"""
+    out = []
+    for t in md_tokens:
+        if t.type == "paragraph_open" and t.map and t.level == 0:
+            for ln in range(t.map[0], t.map[1]):
+                p = _after_hashes(lines[ln])
+                if p is None:
+                    continue
+                rest = p[2]
+                if len(rest) > 0 and not (rest[0] == " " or rest[0] == "\t" or rest[0] == "#"):
+                    out.append(ln + 1)
+    return out
+
+
+def md040(md_tokens):
+    """rule_md040.md: fenced code block whose info string is empty or whitespace only"""
+    out = []
+    for t in md_tokens:
+        if t.type == "fence" and t.map:
+            info = t.info
+            blank = True
+            for ch in info:
+                if not (ch == " " or ch == "\t"):
+                    blank = False
+                    break
+            if blank:
+                out.append(t.map[0] + 1)
+    return out
+
+
+def md025(md_tokens, level):
+    """rule_md025.md: more than one heading of the top level (`level`): every one after the first"""
+    out = []
+    seen = False
+    for lv, line, _atx in headings(md_tokens):
+        if lv == level:
+            if seen:
+                out.append(line + 1)
+            seen = True
+    return out
+
+
+def md041(lines, md_tokens, level):
+    """rule_md041.md: the first block of the document is not a heading of level `level`
+    (documents whose first block is an HTML block are outside this oracle)"""
+    fb = first_block(md_tokens)
+    if fb is None:
+        return [1]  # only blank lines: reported against the first line
+    ty, tag, line = fb
+    if ty == "heading_open" and int(tag[1]) == level:
+        return []
+    return [line + 1]
